@@ -434,6 +434,8 @@ def evaluate__array_subarray(self: XPathFunction, context: ta.ContextType = None
 
     array_: XPathArray = self.get_argument(context, required=True, cls=XPathArray)
     start: int = self.get_argument(context, index=1, required=True, cls=int)
+    if len(self) > 2 and self.get_argument(context, index=2, required=True, cls=int) < 0:
+        raise self.error('FOAY0002')
     if start < 1 or start > len(array_) + 1:
         if isinstance(context, XPathSchemaContext):
             return array_
@@ -441,8 +443,6 @@ def evaluate__array_subarray(self: XPathFunction, context: ta.ContextType = None
 
     if len(self) > 2:
         length = self.get_argument(context, index=2, required=True, cls=int)
-        if length < 0:
-            raise self.error('FOAY0002')
         if start + length > len(array_) + 1:
             raise self.error('FOAY0001')
         items = array_.items(context)[start - 1:start + length - 1]
